@@ -417,6 +417,103 @@ Section LabelsW.
   Qed.
 End LabelsW.
 
+
+(* ----- namespace ----- *)
+
+Lemma same_idkey_getters n n' :
+  same_idkey n n' ->
+  get_kind n' = get_kind n /\ get_api_version n' = get_api_version n /\
+  get_name n' = get_name n /\ get_namespace n' = get_namespace n.
+Proof. intros H. pose proof (same_idkey_ident _ _ H) as Hi. unfold ident in Hi. inversion Hi. auto. Qed.
+
+(* the RoleBinding subject hack only rewrites below `subjects` *)
+Lemma rb_hack_idkey c obj obj' : Namespace.role_binding_hack c obj = Ok obj' -> same_idkey obj obj'.
+Proof. intros H. repeat split; eapply rb_hack_frame_j; eauto. Qed.
+
+(* namespace.Filter on a well-formed document: still well-formed, same kind and apiVersion, the name is kept or
+   (kind Namespace, apiVersion v1: the metadata/name row of the namespace table) becomes the namespace itself *)
+Lemma ns_filter_wf_doc ns n n' :
+  wf_node n -> good ns = true ->
+  Namespace.ns_filter gen_ns_scope (ns_config ns) n = Ok n' ->
+  wf_node n' /\ get_kind n' = get_kind n /\ get_api_version n' = get_api_version n /\
+  (get_name n' = get_name n \/ get_name n' = ns).
+Proof.
+  intros Hw Hgood H. unfold Namespace.ns_filter in H. cbn [Namespace.ns_fss ns_config] in H.
+  change (Namespace.ns_setter (ns_config ns)) with (set_str_entry ns) in H.
+  match type of H with bind ?e _ = _ => destruct e as [n1| | |] eqn:H1 end; cbn [bind] in H; try discriminate.
+  assert (Hn1: wf_node n1 /\ get_kind n1 = get_kind n /\ get_api_version n1 = get_api_version n /\
+               get_name n1 = get_name n).
+  { destruct (Namespace.obj_cluster_scoped gen_ns_scope n); [inv H1; auto|].
+    cbn [fsslice_apply] in H1.
+    destruct (fs_apply (Some KScalar) TNone (set_str_entry ns) (mkFs "" "" "" "metadata/namespace" true) n)
+      as [x| | |] eqn:E; cbn [bind] in H1; try discriminate. inv H1.
+    eapply meta_namespace_set; eauto. }
+  destruct Hn1 as (W1 & K1 & A1 & N1).
+  assert (Hl : forall l, forallb ns_spec_ok (Namespace.prune_subjects (Namespace.prune_meta l gen_namespace_fs)) = true /\
+                         forallb ns_spec_ok (Namespace.prune_meta l gen_namespace_fs) = true).
+  { intros l. unfold Namespace.prune_subjects, Namespace.prune_meta.
+    split; repeat apply forallb_filter; exact gen_namespace_table_ok. }
+  destruct (Namespace.is_role_binding (obj_kind n)).
+  - destruct (Namespace.role_binding_hack (ns_config ns) n1) as [n2| | |] eqn:ER; cbn [bind] in H; try discriminate.
+    pose proof (rb_hack_idkey _ _ _ ER) as Hk. pose proof (wf_node_idkey _ _ Hk W1) as W2.
+    destruct (same_idkey_getters _ _ Hk) as (K2 & A2 & N2 & _).
+    destruct (fsslice_ns_inv cs (fun _ => false) ns _ _ _ (proj1 (Hl _)) Hgood W2 H) as (W & K & A & N).
+    split; [exact W|]. split; [congruence|]. split; [congruence|]. rewrite <- N1, <- N2. exact N.
+  - destruct (fsslice_ns_inv cs (fun _ => false) ns _ _ _ (proj2 (Hl _)) Hgood W1 H) as (W & K & A & N).
+    split; [exact W|]. split; [congruence|]. split; [congruence|]. rewrite <- N1. exact N.
+Qed.
+
+Lemma ns_one_W ns r r' : good ns = true -> W r -> ns_one ns r = Ok r' -> W r'.
+Proof.
+  intros Hg HW H. unfold ns_one in H.
+  assert (Hnode: r_node (store_previous_id cs r) = r_node r) by (rewrite store_previous_id_eq; reflexivity).
+  rewrite Hnode in H.
+  destruct (Namespace.ns_filter gen_ns_scope (ns_config ns) (r_node r)) as [n'| | |] eqn:Hf; cbn [bind] in H; try discriminate.
+  inv H. destruct HW as [[Hh Hw] Hk].
+  destruct (ns_filter_wf_doc _ _ _ Hw Hg Hf) as (Wn & K & A & _).
+  destruct (store_then_update cs r n' (conj Hh Hw) Wn K A) as [Wr _]. split; [exact Wr|].
+  pose proof (kinds_const_store r (conj (conj Hh Hw) Hk)) as Hks.
+  unfold kinds_const in *. cbn [r_node r_pkinds with_node]. rewrite K.
+  rewrite store_previous_id_eq in *. cbn [r_node r_pkinds] in *. exact Hks.
+Qed.
+
+Lemma count_id_app id l1 l2 : count_id cs id (l1 ++ l2) = count_id cs id l1 + count_id cs id l2.
+Proof. unfold count_id. rewrite filter_app, app_length. reflexivity. Qed.
+
+Lemma id_equals_refl_rid r : id_equals (cur_id cs r) (cur_id cs r) = true.
+Proof.
+  unfold id_equals, id_ns_equals, id_gvkn_equals, gvk_equals. rewrite !String.eqb_refl. reflexivity.
+Qed.
+
+(* NamespaceTransformer: the id-conflict test makes the result collision-free by itself *)
+Lemma ns_loop_W ns : good ns = true -> forall todo done out,
+  Forall W todo -> Forall W done -> distinct_ids done ->
+  ns_loop ns done todo = Ok out -> Forall W out /\ distinct_ids out.
+Proof.
+  intros Hg. induction todo as [|r t IH]; intros done out HT HD Hd H; cbn [ns_loop] in H.
+  - inv H. auto.
+  - inversion HT as [|? ? Wr Wt]; subst. rewrite (W_not_empty _ Wr) in H.
+    destruct (ns_one ns r) as [r2| | |] eqn:E; cbn [bind] in H; try discriminate.
+    destruct (Nat.eqb _ 1) eqn:EC; [|discriminate]. apply Nat.eqb_eq in EC.
+    pose proof (ns_one_W _ _ _ Hg Wr E) as W2.
+    eapply IH; [exact Wt| | |exact H].
+    + apply Forall_app. split; [exact HD|constructor; [exact W2|constructor]].
+    + apply distinct_ids_snoc. split; [exact Hd|].
+      rewrite count_id_app in EC. cbn [app] in EC.
+      assert (E0 : count_id cs (cur_id cs r2) done = 0).
+      { unfold count_id in EC |- *. cbn [filter] in EC. rewrite id_equals_refl_rid in EC. cbn [List.length] in EC. lia. }
+      apply count_id_zero. exact E0.
+Qed.
+
+Lemma namespace_transform_W ns m m' :
+  no_char ","%char ns = true -> Forall W m -> distinct_ids m ->
+  namespace_transform ns m = Ok m' -> Forall W m' /\ distinct_ids m'.
+Proof.
+  intros Hn HW Hd. unfold namespace_transform. destruct (String.eqb ns "") eqn:E; [intros H; inv H; auto|].
+  assert (Hg : good ns = true) by (unfold good; rewrite E, Hn; reflexivity).
+  intros H. eapply (ns_loop_W ns Hg m [] m'); eauto; try constructor; try exact I.
+Qed.
+
 (* ----- generators ----- *)
 
 Definition gen_good (g : pgen) : Prop := good (pg_name g) = true /\ no_char ","%char (pg_ns g) = true.
@@ -426,9 +523,8 @@ Proof.
   intros [Hn Hs] H. unfold gen_resource in H. destruct (gen_node secret g) as [n| | |] eqn:EN; cbn [bind] in H; try discriminate.
   inv H. split; [split; [exact I|]|constructor]. cbn [r_node].
   unfold gen_node in EN. destruct (String.eqb (pg_name g) ""); [discriminate|].
-  destruct (mapM Generators.parse_literal (pg_literals g)) as [kvs| | |]; cbn [bind] in EN; try discriminate.
-  destruct (Generators.validated_map kvs []) as [m| | |]; cbn [bind] in EN; try discriminate.
-  destruct (negb secret && _); [discriminate|]. inv EN.
+  destruct (gen_pairs g) as [kvs| | |]; cbn [bind] in EN; try discriminate.
+  destruct (Generators.validated_map kvs []) as [m| | |]; cbn [bind] in EN; try discriminate. inv EN.
   eexists _, _, TStr, SPlain, (pg_name g), (str_node (if secret then "Secret" else "ConfigMap")).
   split; [reflexivity|]. split; [reflexivity|]. split; [reflexivity|]. split; [discriminate|]. split; [exact Hn|].
   split; [reflexivity|]. split; [destruct secret; reflexivity|].
@@ -446,10 +542,11 @@ Qed.
 
 Definition Inv (m : list resource) : Prop := Forall W m /\ distinct_ids m.
 
-(* the class: well-formed documents, no namespace directive, no custom label fields, generators that create
-   with good names, comma-free prefixes and suffixes *)
+(* the class: well-formed documents, no custom label fields, no replicas / images entries, generators that create
+   with good names, comma-free namespace, prefixes and suffixes *)
 Definition dirs_wf (d : pdirs) : Prop :=
-  pd_ns d = "" /\ no_custom_fields d /\ gens_create d /\
+  (pd_replicas d = [] /\ pd_images d = []) /\
+  no_char ","%char (pd_ns d) = true /\ no_custom_fields d /\ gens_create d /\
   Forall gen_good (pd_cmgens d) /\ Forall gen_good (pd_secgens d) /\
   no_char ","%char (pd_prefix d) = true /\ no_char ","%char (pd_suffix d) = true.
 
@@ -482,7 +579,7 @@ Section Acc.
   Lemma run_generators_Inv d m m' :
     dirs_wf d -> Inv m -> run_generators nonstr d m = Ok m' -> Inv m'.
   Proof.
-    intros (_ & _ & [Hc1 Hc2] & Hg1 & Hg2 & _). unfold run_generators. generalize gen_generator_order. intros ks. revert m m'.
+    intros (_ & _ & _ & [Hc1 Hc2] & Hg1 & Hg2 & _). unfold run_generators. generalize gen_generator_order. intros ks. revert m m'.
     induction ks as [|k t IH]; intros m m' HI H; cbn [run_generator_kinds] in H; [inv H; exact HI|].
     match type of H with bind ?E _ = _ => destruct E as [mm| | |] eqn:E1 end; cbn [bind] in H; try discriminate.
     eapply IH; [|exact H].
@@ -493,8 +590,9 @@ Section Acc.
 
   Lemma run_kind_Inv k d m m' : dirs_wf d -> Inv m -> run_kind nonstr k d m = Ok m' -> Inv m'.
   Proof.
-    intros (Hns & Hn & _ & _ & _ & Hp & Hs) [HW Hd]. unfold run_kind. rewrite Hns.
-    destruct (String.eqb k "NamespaceTransformer"); [cbn; intros H; inv H; split; assumption|].
+    intros ([Hrp Him] & Hns & Hn & _ & _ & _ & Hp & Hs) [HW Hd]. unfold run_kind. rewrite Hrp, Him.
+    destruct (String.eqb k "NamespaceTransformer").
+    { intros H. destruct (namespace_transform_W _ _ _ Hns HW Hd H) as [W' D']. split; auto. }
     destruct (String.eqb k "PrefixTransformer").
     { intros H. destruct (prefix_transform_W _ _ _ Hp HW H) as [W' D']. split; auto. }
     destruct (String.eqb k "SuffixTransformer").
@@ -506,7 +604,8 @@ Section Acc.
     destruct (String.eqb k "AnnotationsTransformer").
     { intros H. destruct (label_transform_W nonstr _ _ _ _ common_annos_in_tbl HW H) as [W' S'].
       split; [exact W'|eapply Forall2_same_identity_ids; eauto]. }
-    intros H; inv H; split; assumption.
+    destruct (String.eqb k "ReplicaCountTransformer"); [cbn; intros H; inv H; split; assumption|].
+    destruct (String.eqb k "ImageTagTransformer"); cbn; intros H; inv H; split; assumption.
   Qed.
 
   Lemma run_order_Inv ks d : forall m m', dirs_wf d -> Inv m -> run_order nonstr ks d m = Ok m' -> Inv m'.
@@ -590,10 +689,19 @@ Lemma np_gen_resource secret g : np (gen_resource secret g).
 Proof.
   unfold gen_resource. apply np_bind; [|intros; discriminate]. unfold gen_node.
   destruct (String.eqb (pg_name g) ""); [discriminate|].
-  apply np_bind; [apply np_mapM_in; intros; unfold Generators.parse_literal; np_case|]. intros kvs _.
-  apply np_bind; [|intros; np_case].
-  generalize (@nil (string * string)). induction kvs as [|[k v] t IH]; intros acc; cbn; [discriminate|].
-  destruct (Generators.dict_get k acc); [discriminate|apply IH].
+  apply np_bind.
+  - unfold gen_pairs. apply np_bind.
+    + induction (pg_envs g) as [|c t IH]; cbn [map Generators.concat_res]; [discriminate|].
+      apply np_bind.
+      * generalize true. induction (Generators.scan_lines "" c) as [|l ls IHl]; intros first; cbn [Generators.env_lines]; [discriminate|].
+        apply np_bind; [unfold Generators.env_line; np_case|]. intros p _. apply np_bind; [apply IHl|]. intros; discriminate.
+      * intros x _. apply np_bind; [exact IH|]. intros; discriminate.
+    + intros e _. apply np_bind; [apply np_mapM_in; intros; unfold Generators.parse_literal; np_case|]. intros l _.
+      apply np_bind; [|intros; discriminate]. apply np_mapM_in. intros sc _.
+      apply np_bind; [unfold Generators.parse_file_source; np_case|]. intros; discriminate.
+  - intros kvs _. apply np_bind; [|intros; discriminate].
+    generalize (@nil (string * string)). induction kvs as [|[k v] t IH]; intros acc; cbn; [discriminate|].
+    destruct (Generators.dict_get k acc); [discriminate|apply IH].
 Qed.
 
 Lemma np_matching_any id m : Forall W m -> forall i, np (matching_any id i m).
@@ -601,6 +709,49 @@ Proof.
   induction 1 as [|r t Hr _ IH]; intros i; cbn [matching_any]; [discriminate|].
   destruct (nil_or_empty (r_node r)); [apply IH|].
   apply np_bind; [apply np_prev_ids; exact (proj1 (proj1 Hr))|]. intros p _. apply np_bind; [apply IH|]. intros; discriminate.
+Qed.
+
+(* namespace.Filter never panics, whatever the document *)
+Lemma np_walk {A} cr ps (k : node -> res (node * A)) n : (forall x, np (k x)) -> np (walk cr ps k n).
+Proof. intros H. apply TotalityProofs.walk_never_panics. exact H. Qed.
+
+Lemma np_ns_setter c n : np (Namespace.ns_setter c n).
+Proof. unfold Namespace.ns_setter. destruct (_ && _); [discriminate|apply TotalityProofs.set_scalar_total]. Qed.
+
+Lemma np_visit_subject c field value o : np (Namespace.visit_subject c field value o).
+Proof.
+  unfold Namespace.visit_subject. apply np_bind; [apply np_walk; intros; discriminate|]. intros r _.
+  destruct (snd r) as [x|]; [|discriminate]. destruct (is_null x); [discriminate|].
+  destruct x; try discriminate. destruct (String.eqb v value); [|discriminate].
+  apply np_bind; [|intros; discriminate]. apply np_walk. intros n.
+  apply np_bind; [apply np_ns_setter|]. intros; discriminate.
+Qed.
+
+Lemma np_role_binding_hack c obj : np (Namespace.role_binding_hack c obj).
+Proof.
+  unfold Namespace.role_binding_hack. destruct (Namespace.ns_mode c); try discriminate.
+  all: apply np_bind; [|intros; discriminate]; apply np_walk; intros subj.
+  all: destruct (is_null subj); [discriminate|]; destruct subj; try discriminate.
+  all: apply np_bind; [apply np_mapM_in; intros; apply np_visit_subject|]; intros; discriminate.
+Qed.
+
+Lemma np_ns_filter c obj : np (Namespace.ns_filter gen_ns_scope c obj).
+Proof.
+  unfold Namespace.ns_filter. apply np_bind.
+  - destruct (Namespace.obj_cluster_scoped gen_ns_scope obj); [discriminate|].
+    apply TotalityProofs.fsslice_apply_no_panic. apply np_ns_setter.
+  - intros o1 _. destruct (Namespace.is_role_binding (obj_kind obj)).
+    + apply np_bind; [apply np_role_binding_hack|]. intros o2 _.
+      apply TotalityProofs.fsslice_apply_no_panic. apply np_ns_setter.
+    + apply TotalityProofs.fsslice_apply_no_panic. apply np_ns_setter.
+Qed.
+
+Lemma np_ns_loop ns todo : forall done, np (ns_loop ns done todo).
+Proof.
+  induction todo as [|r t IH]; intros done; cbn [ns_loop]; [discriminate|].
+  destruct (nil_or_empty (r_node r)); [apply IH|].
+  apply np_bind; [unfold ns_one; apply np_bind; [apply np_ns_filter|intros; discriminate]|].
+  intros r2 _. destruct (Nat.eqb _ 1); [apply IH|discriminate].
 Qed.
 
 Section NoPanic.
@@ -626,7 +777,7 @@ Section NoPanic.
 
   Lemma np_run_generators d m : dirs_wf d -> Inv m -> np (run_generators nonstr d m).
   Proof.
-    intros Hd. pose proof Hd as (_ & _ & [Hc1 Hc2] & Hg1 & Hg2 & _).
+    intros Hd. pose proof Hd as (_ & _ & _ & [Hc1 Hc2] & Hg1 & Hg2 & _).
     unfold run_generators. generalize gen_generator_order. intros ks. revert m.
     induction ks as [|k t IH]; intros m HI; cbn [run_generator_kinds]; [discriminate|].
     apply np_bind.
@@ -684,8 +835,9 @@ Section NoPanic.
 
   Lemma np_run_kind k d m : dirs_wf d -> Inv m -> np (run_kind nonstr k d m).
   Proof.
-    intros (Hns & _) [HW _]. unfold run_kind. rewrite Hns.
-    destruct (String.eqb k "NamespaceTransformer"); [cbn; discriminate|].
+    intros ([Hrp Him] & Hns & _) [HW _]. unfold run_kind. rewrite Hrp, Him.
+    destruct (String.eqb k "NamespaceTransformer").
+    { unfold namespace_transform. destruct (String.eqb _ ""); [discriminate|apply np_ns_loop]. }
     destruct (String.eqb k "PrefixTransformer").
     { unfold prefix_transform. destruct (String.eqb _ ""); [discriminate|]. apply np_mapM_in. intros r Hr.
       unfold prefix_one. rewrite Forall_forall in HW. apply np_bind; [apply np_org_id; auto|]. intros org _.
@@ -696,7 +848,9 @@ Section NoPanic.
       destruct (should_skip _ org); [discriminate|apply np_affix_steps]. }
     destruct (String.eqb k "LabelTransformer").
     { apply np_bind; [apply np_label_transformers|]. intros; apply np_label_transforms. }
-    destruct (String.eqb k "AnnotationsTransformer"); [apply np_label_transform|discriminate].
+    destruct (String.eqb k "AnnotationsTransformer"); [apply np_label_transform|].
+    destruct (String.eqb k "ReplicaCountTransformer"); [cbn; discriminate|].
+    destruct (String.eqb k "ImageTagTransformer"); cbn; discriminate.
   Qed.
 
   Lemma np_run_order ks d : forall m, dirs_wf d -> Inv m -> np (run_order nonstr ks d m).
@@ -734,3 +888,267 @@ Section NoPanic.
         unfold run_transformers. apply np_bind; [apply np_label_transformers|]. intros; apply np_run_order; assumption.
   Qed.
 End NoPanic.
+
+(* ================= no Panic through the top-only steps ================= *)
+
+From KV Require Res.HashProofs.
+
+Lemma alphabet_no_comma c : HashProofs.in_suffix_alphabet c = true -> Ascii.eqb c ","%char = false.
+Proof.
+  intros H. destruct (Ascii.eqb c ","%char) eqn:E; [|reflexivity].
+  apply Ascii.eqb_eq in E. subst c. vm_compute in H. discriminate.
+Qed.
+
+Lemma hash_no_comma c h : Hash.hash_content c = Ok h -> no_char ","%char h = true.
+Proof.
+  intros H. destruct (HashProofs.hash_content_shape _ _ H) as [_ A]. clear H.
+  induction h as [|a t IH]; [reflexivity|]. cbn in A |- *. apply andb_true_iff in A as [A1 A2].
+  rewrite (alphabet_no_comma _ A1). cbn. auto.
+Qed.
+
+Section TopNoPanic.
+  Variable nonstr : string -> bool.
+
+  (* the hash step keeps resources well-formed *)
+  Lemma hash_res_W r r' : W r -> hash_res nonstr r = Ok r' -> W r'.
+  Proof.
+    intros HW H. unfold hash_res in H. destruct (r_needs_hash r) eqn:EN; [|inv H; exact HW].
+    destruct (_ || _); [|discriminate].
+    destruct (Hash.hash_content _) as [h| | |] eqn:EH; cbn [bind] in H; try discriminate.
+    destruct (hash_one_hist cs nonstr h r r' (hash_no_comma _ _ EH) (proj1 HW) H) as (Wr & (_ & K & _) & _).
+    split; [exact Wr|]. unfold hash_one in H. rewrite EN in H.
+    destruct (set_name nonstr _ _) as [n'| | |]; cbn [bind] in H; try discriminate. inv H.
+    pose proof (kinds_const_store r HW) as Hks.
+    unfold kinds_const in *. cbn [r_node r_pkinds with_node] in *. rewrite K.
+    rewrite store_previous_id_eq in *. cbn [r_node r_pkinds] in *. exact Hks.
+  Qed.
+
+  Lemma np_hash_res r : np (hash_res nonstr r).
+  Proof.
+    unfold hash_res. destruct (r_needs_hash r); [|discriminate]. destruct (_ || _); [|discriminate].
+    apply np_bind; [unfold Hash.hash_content, Hash.encode_suffix; np_case|]. intros h _.
+    unfold hash_one. destruct (r_needs_hash r); [|discriminate].
+    apply np_bind; [|intros; discriminate]. unfold set_name. apply np_bind; [|intros; discriminate].
+    unfold put. apply np_walk. intros x. unfold k_set_field. apply np_bind; [apply TotalityProofs.set_field_total|].
+    intros; discriminate.
+  Qed.
+
+  (* what the name-reference pass needs of every resource: a readable history and a non-empty name *)
+  Definition P (r : resource) : Prop := hist_ok r /\ get_name (r_node r) <> "".
+
+  Lemma W_P r : W r -> P r.
+  Proof.
+    intros [[Hh Hw] _]. split; [exact Hh|]. destruct (wf_node_good _ Hw) as (G & _).
+    unfold good in G. apply andb_true_iff in G as [G _]. apply negb_true_iff in G. apply String.eqb_neq. exact G.
+  Qed.
+
+  Lemma P_same_identity r r' : same_identity r r' -> P r -> P r'.
+  Proof.
+    intros [Hi (B1 & B2 & B3 & _)] [Hh Hn]. split.
+    - unfold hist_ok in *. rewrite B1, B2, B3. exact Hh.
+    - unfold ident in Hi. inversion Hi as [[A B C D]]. rewrite C. exact Hn.
+  Qed.
+
+  Lemma view_names l : forall cands,
+    Forall P l -> mapM (view cs) l = Ok cands -> Forall (fun c => c_name c <> "") cands.
+  Proof.
+    induction l as [|r t IH]; intros cands HP H; cbn [mapM] in H; [inv H; constructor|].
+    inversion HP as [|? ? Pr Pt]; subst.
+    destruct (view cs r) as [c| | |] eqn:E; cbn [bind] in H; try discriminate.
+    destruct (mapM (view cs) t) as [ct| | |]; cbn [bind] in H; try discriminate. inv H.
+    constructor; [|auto]. unfold view in E. destruct (prev_ids r); cbn [bind] in E; try discriminate. inv E. exact (proj2 Pr).
+  Qed.
+
+  Lemma np_view r : P r -> np (view cs r).
+  Proof. intros [Hh _]. unfold view. apply np_bind; [apply np_prev_ids; exact Hh|]. intros; discriminate. Qed.
+
+  Lemma Forall_select_by {A} (Q : A -> Prop) flags : forall l, Forall Q l -> Forall Q (select_by flags l).
+  Proof.
+    induction flags as [|b f IH]; intros l H; [destruct l; constructor|].
+    destruct H as [|x t Hx Ht]; [destruct b; constructor|]. destruct b; cbn; [constructor; auto|auto].
+  Qed.
+
+  Lemma sieve_in x old l c : In c (sieve4 x old l) -> In c l.
+  Proof. unfold sieve4. intros H. repeat (apply filter_In in H as [H _]). exact H. Qed.
+
+  Lemma np_nr_set x cands n : Forall (fun c => c_name c <> "") cands -> np (nr_set nonstr x cands n).
+  Proof.
+    intros Hc. rewrite Forall_forall in Hc.
+    assert (S1 : forall y, np (nr_set_scalar x cands y)).
+    { intros y. unfold nr_set_scalar. apply np_bind; [unfold select_referral; np_case|]. intros r Er.
+      destruct r as [c|]; [|discriminate]. destruct (String.eqb _ _); [discriminate|].
+      unfold set_string_scalar. destruct (String.eqb (c_name c) "") eqn:E; [|apply TotalityProofs.set_scalar_total].
+      exfalso. apply String.eqb_eq in E. apply select_referral_in, sieve_in in Er. exact (Hc _ Er E). }
+    assert (S2 : forall y, np (nr_set_mapping nonstr x cands y)).
+    { intros y. unfold nr_set_mapping. destruct y as [t s v|kvs|es]; try discriminate.
+      destruct (find_field "name" kvs); [|discriminate].
+      apply np_bind; [unfold select_referral; np_case|]. intros r Er. destruct r as [c|]; [|discriminate].
+      destruct (_ && _); [discriminate|].
+      assert (Hin : In c cands).
+      { apply select_referral_in, sieve_in in Er. unfold mapping_cands, by_namespace in Er.
+        destruct (find_field "namespace" kvs); [|exact Er].
+        destruct (String.eqb _ totally_not_a_namespace); [destruct Er|].
+        destruct (filter _ cands) eqn:EF; [apply filter_In in Er as [Er _]; exact Er|].
+        rewrite <- EF in Er. apply filter_In in Er as [Er _]. exact Er. }
+      assert (Hne : String.eqb (c_name c) "" = false) by (apply String.eqb_neq; apply Hc; exact Hin).
+      apply np_bind.
+      - unfold set_string_field. rewrite Hne. apply TotalityProofs.set_field_total.
+      - intros n1 _. destruct (String.eqb (c_ns c) "") eqn:E2; [discriminate|].
+        unfold set_string_field. rewrite E2. apply TotalityProofs.set_field_total. }
+    unfold nr_set. destruct (is_null n); [discriminate|]. destruct n as [t s v|kvs|es]; [apply S1|apply S2|].
+    apply np_bind; [|intros; discriminate]. apply np_mapM_in. intros e _. unfold nr_set_elem.
+    destruct (is_null e); [discriminate|]. destruct e; [apply S1|apply S2|discriminate].
+  Qed.
+
+  Lemma np_apply_rules mb ma flags fl : forall r,
+    Forall (fun p => rule_ok (fst p)) fl -> Forall P mb -> Forall P ma -> P r ->
+    np (apply_rules cs nonstr mb ma flags fl r).
+  Proof.
+    induction fl as [|[fs tg] t IH]; intros r Hok Hb Ha Hr; cbn [apply_rules]; [discriminate|].
+    inversion Hok as [|? ? H1 H2]; subst. cbn [fst] in H1.
+    assert (HPl : Forall P (select_by flags (mb ++ r :: ma))).
+    { apply Forall_select_by. apply Forall_app. split; [exact Hb|constructor; assumption]. }
+    apply np_bind.
+    - apply np_mapM_in. intros y Hy. apply np_view. rewrite Forall_forall in HPl. auto.
+    - intros cands Ec. apply np_bind.
+      + unfold apply_rule. apply np_bind; [|intros; discriminate].
+        apply TotalityProofs.fs_filter_no_panic. intros n. apply np_nr_set. eapply view_names; eauto.
+      + intros r1 E1. apply IH; auto. eapply P_same_identity; [eapply apply_rule_identity; eauto|exact Hr].
+  Qed.
+
+  Lemma np_referencable m r : np (referencable cs m r).
+  Proof.
+    unfold referencable. destruct (id_cluster_scoped _); [discriminate|].
+    apply np_bind; [|intros; discriminate]. unfold rolebinding_namespaces.
+    destruct (negb _); [discriminate|]. destruct (map_field_value "subjects" (r_node r)) as [[| |es]|]; try discriminate.
+    induction es as [|e t IH]; cbn [rb_subject_namespaces]; [discriminate|].
+    destruct e as [tg s v|kvs|l]; try discriminate.
+    apply np_bind; [np_case|]. intros here _. apply np_bind; [exact IH|]. intros; discriminate.
+  Qed.
+
+  Lemma np_transform_loop filters : forall done todo,
+    Forall (Forall (fun p => rule_ok (fst p))) filters -> Forall P done -> Forall P todo ->
+    np (transform_loop cs nonstr filters done todo).
+  Proof.
+    induction filters as [|fl filters IH]; intros done todo Hok Hd Ht.
+    - destruct todo; cbn; discriminate.
+    - inversion Hok as [|? ? Hfl Hrest]; subst.
+      destruct todo as [|r t]; cbn [transform_loop]; [discriminate|].
+      inversion Ht as [|? ? Pr Pt]; subst.
+      destruct fl as [|f0 fl'].
+      + apply IH; auto. apply Forall_app. split; [exact Hd|constructor; [exact Pr|constructor]].
+      + apply np_bind; [apply np_referencable|]. intros flags _.
+        apply np_bind; [apply np_apply_rules; auto|]. intros r' E.
+        apply IH; auto. apply Forall_app. split; [exact Hd|constructor; [|constructor]].
+        eapply P_same_identity; [eapply apply_rules_identity; eauto|exact Pr].
+  Qed.
+
+  Lemma np_nameref rules m :
+    effective_rules gen_gvk_order_first gen_gvk_order_last gen_nameref_raw = Ok rules ->
+    Forall P m -> np (nameref_transform cs nonstr rules m).
+  Proof.
+    intros HR HP. unfold nameref_transform.
+    apply np_bind; [apply np_mapM_in; intros r Hr; unfold org_id; apply np_bind;
+                    [apply np_prev_ids; rewrite Forall_forall in HP; exact (proj1 (HP _ Hr))|intros p _; np_case]|].
+    intros orgs _. apply np_transform_loop; [|constructor|exact HP].
+    apply Forall_forall. intros fl Hin. apply in_map_iff in Hin as (org & <- & _).
+    apply filters_for_ok. intros b f Hb Hf. eapply gen_rule_ok; eauto.
+  Qed.
+
+  (* IgnoreLocal panics exactly on an id collision among the resources it keeps *)
+  Lemma np_remove_loop ids kept : forall cur, np (remove_loop ids kept cur).
+  Proof.
+    induction ids as [|id t IH]; intros cur; cbn [remove_loop]; [discriminate|].
+    destruct (existsb _ kept); [apply IH|]. destruct (Nat.eqb _ _); [apply IH|discriminate].
+  Qed.
+
+  Lemma np_ignore_local m : distinct_ids m -> np (ignore_local m).
+  Proof.
+    intros Hd. unfold ignore_local. destruct (negb _); [discriminate|].
+    rewrite (append_all_ok _ []) by (cbn [app]; do 2 apply distinct_ids_filter; exact Hd).
+    apply np_remove_loop.
+  Qed.
+
+  (* the hash suffixes create no id collision (C07_ids_unique_hash_refuted: they can) *)
+  Definition no_hash_clash (t : ptree) : Prop :=
+    forall m m1, accumulate nonstr t = Ok m -> mapM (hash_res nonstr) m = Ok m1 -> distinct_ids m1.
+
+  (* PIPE_build_no_panic_partial *)
+  Theorem build_no_panic o t : tree_wf t -> no_hash_clash t -> build nonstr o t <> Panic.
+  Proof.
+    intros Hwf Hc. unfold build. destruct t as [docs|n d ents]; [discriminate|].
+    apply np_bind; [apply accumulate_no_panic; exact Hwf|]. intros m EA.
+    destruct (accumulate_Inv nonstr _ _ Hwf EA) as [HW _].
+    apply np_bind; [apply np_mapM_in; intros; apply np_hash_res|]. intros m1 EH.
+    assert (HW1 : Forall W m1).
+    { clear -HW EH. apply mapM_Forall2P in EH. induction EH as [|r r' t t' Hr _ IH]; [constructor|].
+      inversion HW; subst. constructor; [eapply hash_res_W; eauto|auto]. }
+    destruct pipe_rules as [rules| | |] eqn:ER; cbn [bind]; try discriminate.
+    assert (ER' : effective_rules gen_gvk_order_first gen_gvk_order_last gen_nameref_raw = Ok rules)
+      by (rewrite <- pipe_rules_eq; exact ER).
+    apply np_bind.
+    { apply np_nameref; [exact ER'|]. clear -HW1. induction HW1; constructor; auto using W_P. }
+    intros m2 EN.
+    assert (Hd2 : distinct_ids m2).
+    { eapply Forall2_same_identity_ids; [eapply gen_transform_identity; eauto|]. eapply Hc; eauto. }
+    apply np_bind; [apply np_ignore_local; exact Hd2|]. intros m2l _.
+    apply np_bind; [destruct o; cbn [sort_resources]; try discriminate; apply np_append_all|]. intros; discriminate.
+  Qed.
+
+  (* the characterisation read the other way: on a well-formed tree a Panic of the build is the
+     FromResourceSlice collision after the hash step *)
+  Corollary build_panic_is_hash_clash o t : tree_wf t -> build nonstr o t = Panic -> ~ no_hash_clash t.
+  Proof. intros Hwf H Hc. exact (build_no_panic o t Hwf Hc H). Qed.
+End TopNoPanic.
+
+(* non-vacuity / necessity: the hash-clash tree IS well-formed, and its build panics *)
+Definition clash_tree : ptree :=
+  PDir "t" (mkPDirs "" "" "" [] [] [] [mkPGen "a" "" "" ["k=v"] "" false [] [] false] [])
+    [PFile [Map [("apiVersion", Scalar TStr SPlain "v1"); ("kind", Scalar TStr SPlain "ConfigMap");
+                 ("metadata", Map [("name", Scalar TStr SPlain "a-bdg947hgcc")])]]].
+
+Ltac solve_creates := first [left; vm_compute; reflexivity | right; vm_compute; reflexivity].
+Ltac solve_dirs_wf :=
+  unfold dirs_wf, no_custom_fields, gens_create; cbn [pd_ns pd_prefix pd_suffix pd_labels pd_cmgens pd_secgens pd_replicas pd_images mkPDirs mkPDirsG];
+  repeat match goal with
+         | |- _ /\ _ => split
+         | |- Forall _ [] => constructor
+         | |- Forall _ (_ :: _) => constructor
+         | |- creates _ => solve_creates
+         | |- gen_good _ => split; reflexivity
+         | |- _ = true => reflexivity
+         | |- _ = [] => reflexivity
+         end.
+Ltac solve_wf_node := eexists _, _, _, _, _, _; repeat split; try reflexivity; discriminate.
+
+Example clash_tree_wf : tree_wf clash_tree.
+Proof.
+  constructor; [solve_dirs_wf|]. constructor; [|constructor]. constructor.
+  constructor; [solve_wf_node|constructor].
+Qed.
+
+Example clash_tree_panics : build (fun _ => false) PSortNone clash_tree = Panic.
+Proof. vm_compute. reflexivity. Qed.
+
+(* a well-formed two-layer tree with a namespace directive, prefixes and a generator, without a clash *)
+Definition wf_example_tree : ptree :=
+  PDir "top" (mkPDirs "prod" "p-" "" [] [("app", "x")] [] [] [])
+    [PDir "base" (mkPDirs "" "" "-s" [] [] [] [mkPGen "cfg" "" "" ["k=v"] "" false [] [] false] [])
+       [PFile [Map [("apiVersion", Scalar TStr SPlain "v1"); ("kind", Scalar TStr SPlain "Namespace");
+                    ("metadata", Map [("name", Scalar TStr SPlain "old")])];
+               Map [("apiVersion", Scalar TStr SPlain "v1"); ("kind", Scalar TStr SPlain "Pod");
+                    ("metadata", Map [("name", Scalar TStr SPlain "web")])]]]].
+
+Example wf_example_tree_wf : tree_wf wf_example_tree.
+Proof.
+  constructor; [solve_dirs_wf|]. constructor; [|constructor].
+  constructor; [solve_dirs_wf|]. constructor; [|constructor]. constructor.
+  constructor; [solve_wf_node|]. constructor; [solve_wf_node|constructor].
+Qed.
+
+Example wf_example_names :
+  match build (fun _ => false) PSortNone wf_example_tree with
+  | Ok outs => map get_name outs
+  | _ => []
+  end = ["prod"; "p-web-s"; "p-cfg-s-bdg947hgcc"].
+Proof. vm_compute. reflexivity. Qed.
